@@ -13,6 +13,16 @@ RULE = ("one evaluation = one judged observation on a real StdScheduler driven t
         "if it has >= 3 calls; distinct by (mode, call sequence). No exact differential run of the interleavings (they are not replayable): the theorems cover every "
         "interleaving of the model, the tie is the regenerated shape of Start/Stop/stopRun/stop/IsStarted/Wait and the goroutine accounting plus this run")
 
+MISFIRE_RULE = (". Plus (qh misfire --prop C10) schedulers configured with WithMisfiredChan(ch), ch unbuffered or with a buffer of 1, which nobody reads, in the modes "
+                "default / BlockingExecution / WorkerLimit 2: misfires are produced (jobs whose time passed while the scheduler was not running; jobs whose trigger "
+                "reports a fire time 10 s in the past on a running scheduler; in blocking mode a 40 ms job due every 5 ms with OutdatedThreshold 10 ms) until the channel "
+                "is full, then Stop or cancellation: IsStarted false within 2 s, Wait returns within 8 s, GetJobKeys / ScheduleJob / GetScheduledJob / PauseJob / ResumeJob / "
+                "DeleteJob return within 5 s each, nothing in flight or starting, no goroutine of package quartz, a second Start fires a 5 ms job within 3 s (14 scenarios per round); "
+                "and restart-busy (3 per round): WorkerLimit n in 2..11, Stop;Start or cancel;Start while all n workers are inside jobs that ignore their context, the n workers "
+                "of the new run occupied and 3n more jobs due while the old jobs return one by one: every execution that starts on the started scheduler must find its "
+                "context live (the total number of concurrent executions across runs is the recorded finding C12 restart-overlap and is not judged)")
+
+
 
 def run(ctx):
     b = common.build_all(ctx)
@@ -26,6 +36,8 @@ def run(ctx):
         for k in range(1, 4):
             results.append(generic.engine_run(ctx, "lifecycle", ["--seed", str(ctx.seed * 1000 + k), "--n", "300", "--reps", "300", "--len", "40"], "extra%d" % k, timeout=1800))
         race_variant(ctx)
+    # a configured MisfiredChan that nobody reads, and a restart while the old workers are busy (harness/cmd/qh/misfire.go)
+    results.append(generic.engine_run(ctx, "misfire", ["--prop", "C10", "--seed", str(ctx.seed), "--n", "1" if not ctx.thorough else "8"], "misfire", timeout=900))
     bad = generic.proof_cov(ctx, extra_trusted=[
         "sync.RWMutex: Start, Stop, stopRun and IsStarted are atomic with respect to each other (their bodies run with sched.mtx held: regenerated facts); "
         "context.WithCancel: cancelling a parent or calling cancel() makes Done() ready and Err() non-nil for the derived context, permanently",
@@ -37,7 +49,7 @@ def run(ctx):
     generic.judge(ctx, results, bad, "lifecycle",
                   widen=lambda: (generic.engine_run(ctx, "lifecycle", ["--seed", str(ctx.seed * 7919 + k), "--n", "200", "--reps", "200", "--len", "30"], "search%d" % k, timeout=1800)
                                  for k in range(1, 3)))
-    generic.fill_coverage(ctx, results, RULE)
+    generic.fill_coverage(ctx, results, RULE + MISFIRE_RULE)
     ctx.coverage["traces_validated_against_impl"] = 0
     ctx.coverage["note"] = ("concurrency property: stats.json only, no ops.txt/impl.txt; IsStarted is compared after every call of every random sequence with the Go twin of "
                             "`Lifecycle.expect` (C10_isStarted_latest)")
